@@ -1,6 +1,7 @@
 import re
 import string
 from abc import ABC, abstractmethod
+from keyword import iskeyword
 
 
 class NameSanitizer(ABC):
@@ -20,4 +21,5 @@ class BuiltinNameSanitizer(NameSanitizer):
         first_letter = name[0] if name[0] in string.ascii_letters else "_"
         body = self._BAD_CHARS.sub("", name[1:].translate(self._TRANSLATE_MAP))
         # \w also matches characters that can not be a part of an identifier (e.g. superscript digits)
-        return first_letter + "".join(char for char in body if ("_" + char).isidentifier())
+        result = first_letter + "".join(char for char in body if ("_" + char).isidentifier())
+        return result + "_" if iskeyword(result) else result
